@@ -27,6 +27,7 @@ type lifeOp struct {
 	F    int    `json:"f,omitempty"`
 	Coll string `json:"coll,omitempty"`
 	Dump bool   `json:"dump,omitempty"`
+	NoBackfill bool `json:"no_backfill,omitempty"` // start, dump: a dump feed that asks for no backfill has nothing to deliver and ends at once
 	ViaBucket bool `json:"via_bucket,omitempty"` // start: through Bucket.StartDCPFeed with no Scopes (the default collection's feed), whatever the handle has opened
 }
 
@@ -184,6 +185,9 @@ func execLife(in lifeInput, scratch string) (Case, error) {
 							args := sgbucket.FeedArguments{ID: fid, Backfill: sgbucket.FeedNoBackfill, Terminator: f.term, DoneChan: f.done}
 							if op.Dump {
 								args.Backfill, args.Dump = 0, true
+								if op.NoBackfill {
+									args.Backfill = sgbucket.FeedNoBackfill
+								}
 							}
 							if in.Ckpt {
 								args.CheckpointPrefix = "cp"
@@ -317,7 +321,19 @@ func genLife(r *rand.Rand) lifeInput {
 	in := lifeInput{InMem: r.Intn(2) == 0, SameID: r.Intn(2) == 0, Ckpt: r.Intn(2) == 0}
 	colls := []string{"_default._default"}
 	open := map[int]bool{}
-	add := func(o lifeOp) { in.Ops = append(in.Ops, o) }
+	add := func(o lifeOp) {
+		if o.Kind == "start" && o.Dump && r.Intn(2) == 0 {
+			// a dump of a collection that holds nothing may as well ask for no backfill: it ends at once all the same
+			empty := true
+			for _, p := range in.Ops {
+				if p.Kind == "write" && p.Coll == o.Coll {
+					empty = false
+				}
+			}
+			o.NoBackfill = empty
+		}
+		in.Ops = append(in.Ops, o)
+	}
 	add(lifeOp{Kind: "open", H: 0})
 	open[0] = true
 	for _, cn := range []string{"s1.c1", "s1.c2"} {
